@@ -1,6 +1,5 @@
 //verif:dest internal/server/zz_verif_gossh.go
 //verif:replace@C14 golang.org/x/crypto/ssh.NewServerConn = c14NewServerConn
-//verif:replace@C14 golang.org/x/crypto/ssh.DiscardRequests = c14Discard
 //verif:replace@C14 golang.org/x/crypto/ssh.Unmarshal = c14Unmarshal
 //verif:replace@C09d golang.org/x/crypto/ssh.NewServerConn = c14NewServerConn
 //verif:replace@C09d golang.org/x/crypto/ssh.DiscardRequests = c14Discard
@@ -31,6 +30,40 @@ type c14Conn struct {
 	closed  chan struct{}
 	isClosed bool
 	chans   chan gossh.NewChannel
+	// with a mux (c14StartMux): the connection-wide request queue, and Wait returns
+	// only when the mux goroutine has seen the end of the connection
+	global   chan *gossh.Request
+	waitDone chan struct{}
+}
+
+// c14ChanSize is x/crypto/ssh's chanSize: the buffering of the queues of new
+// channels, of connection-wide requests and of the requests of one channel.
+const c14ChanSize = 16
+
+// c14StartMux models what the documentation of ssh.NewServerConn states: "The
+// Request and NewChannel channels must be serviced, or the connection will
+// hang." One goroutine per connection delivers what the client sent, in order,
+// into the bounded queues; only after that it notices the end of the
+// connection, closes the queues and lets Wait return.
+func c14StartMux(c *c14Conn, nc *c14NewChan, globals int, requests []*gossh.Request) {
+	go func() {
+		for i := 0; i < globals; i++ {
+			c.global <- &gossh.Request{Type: "keepalive@openssh.com"}
+		}
+		if nc != nil {
+			c.chans <- nc
+			for _, r := range requests {
+				nc.reqs <- r
+			}
+		}
+		<-c.closed
+		if nc != nil {
+			close(nc.reqs)
+		}
+		close(c.global)
+		close(c.chans)
+		close(c.waitDone)
+	}()
 }
 
 func (c *c14Conn) User() string {
@@ -57,7 +90,14 @@ func (c *c14Conn) Close() error {
 	}
 	return nil
 }
-func (c *c14Conn) Wait() error { <-c.closed; return io.EOF }
+func (c *c14Conn) Wait() error {
+	if c.waitDone != nil {
+		<-c.waitDone
+		return io.EOF
+	}
+	<-c.closed
+	return io.EOF
+}
 
 // net.Conn side (only handed to the NewServerConn stub)
 func (c *c14Conn) Read(b []byte) (int, error)         { return 0, io.EOF }
@@ -109,6 +149,9 @@ func c14NewServerConn(c net.Conn, cfg *gossh.ServerConfig) (*gossh.ServerConn, <
 	}
 	c14Authenticated[conn.id] = true
 	sc := &gossh.ServerConn{Conn: conn}
+	if conn.global != nil {
+		return sc, conn.chans, conn.global, nil
+	}
 	return sc, conn.chans, make(chan *gossh.Request), nil
 }
 func c14Discard(in <-chan *gossh.Request) {}
